@@ -201,7 +201,8 @@ class Angle(object):
 
         (de, mi, se, sign) = Angle.reduce_dms(degrees, minutes, seconds)
         deg = sign * (de + mi / 60.0 + se / 3600.0)
-        return float(deg)
+        # Rounding in the sum above may yield exactly +/-360.0
+        return Angle.reduce_deg(deg)
 
     def get_tolerance(self):
         """Gets the internal tolerance value used to compare Angles.
@@ -414,7 +415,8 @@ class Angle(object):
         """
 
         self.set(*args)  # Carry out a standard set(), without *kwargs
-        self._deg *= 15.0  # Multipy Right Ascension by 15.0 to get degrees
+        # Multipy Right Ascension by 15.0 to get degrees, and reduce again
+        self._deg = Angle.reduce_deg(self._deg * 15.0)
         return
 
     def dms_str(self, fancy=True, n_dec=-1):
